@@ -491,6 +491,9 @@ class StructuredTypeMarshaller(AbstractMarshaller[_ST]):
         fields_by_var = {}
         hints = inspection.cached_type_hints(self.t)
         for name, hint in hints.items():
+            # A class variable is not a field of the instance.
+            if inspection.isclassvartype(hint):
+                continue
             resolved = refs.evaluate(hint)
             m = self.context.get(hint) or self.context.get(resolved)
             if m is None:
